@@ -119,7 +119,11 @@ func (g *Gen) specialCall(fr *Frame, st *State, site ssa.Instruction, c *ssa.Cal
 		g.vc.decl("p$errAs", "(declare-fun p$errAs (Int Int) Bool)")
 		tag := 0
 		if len(c.Args) == 2 {
-			if pt, ok := types.Unalias(c.Args[1].Type()).Underlying().(*types.Pointer); ok {
+			targetT := c.Args[1].Type()
+			if mi, ok := c.Args[1].(*ssa.MakeInterface); ok {
+				targetT = mi.X.Type()
+			}
+			if pt, ok := types.Unalias(targetT).Underlying().(*types.Pointer); ok {
 				tag = g.typeTag(pt.Elem())
 				g.boxFn(pt.Elem())
 			}
